@@ -41,3 +41,19 @@ package rule
 //@ table[C06,C07,C20] symmetric rule.comparisonsTable
 //@ table[C07,C20] injective rule.fieldsTable
 //@ table[C07,C20] injective rule.operatorsTable
+
+// ---------------------------------------------------------------------------
+// C06: the wire form is struct audit_rule_data in native (little-endian) byte
+// order: header fields at the UAPI offsets, the string buffer after the
+// header, zero padding to a multiple of 4.
+//
+//@ func (rule.auditRuleData).toWireFormat
+//@ requires len(r.Buf) <= 1073741824
+//@ ensures[C06] len(result) % 4 == 0 && 1040 + len(r.Buf) <= len(result) && len(result) < 1040 + len(r.Buf) + 4
+//@ ensures[C06] le32(result, 0) == r.Flags && le32(result, 4) == r.Action && le32(result, 8) == r.FieldCount && le32(result, 1036) == r.BufLen
+//@ ensures[C06] forall i int :: 0 <= i && i < 64 ==> le32(result, 12 + 4*i) == r.Mask[i]
+//@ ensures[C06] forall i int :: 0 <= i && i < 64 ==> le32(result, 268 + 4*i) == r.Fields[i]
+//@ ensures[C06] forall i int :: 0 <= i && i < 64 ==> le32(result, 524 + 4*i) == r.Values[i]
+//@ ensures[C06] forall i int :: 0 <= i && i < 64 ==> le32(result, 780 + 4*i) == r.FieldFlags[i]
+//@ ensures[C06] forall j int :: 0 <= j && j < len(r.Buf) ==> result[1040 + j] == r.Buf[j]
+//@ ensures[C06] forall j int :: 1040 + len(r.Buf) <= j && j < len(result) ==> result[j] == 0
